@@ -11,7 +11,7 @@ TECHNIQUE = ("exhaustive evaluation over a finite parameter grid x every degree 
              "against independently evaluated closed forms (no state space to explore: bounded exhaustive input "
              "enumeration only)")
 RULE = ("grid: a in {0.001,0.01,0.1,0.5,1,2,5.5,37}, mean in {0.01,0.5,1,2.5,7,30,120,171.5,300,450.25,720,800}, alpha in {2,2.2,2.5,2.9,3,3.7,4,5,8.5}, kappa in "
-        "{0.05,0.3,1,2.5,5,25,60,150,1000}; every function evaluated ascending, then a second one descending and at scattered k (values must not depend on the order of the calls); two-call histories (the same factory called first with a parameter 0.04 / 0.004 "
+        "{0.05,0.3,1,2.5,5,25,60,150,1000,10000,30000.5}; every function evaluated ascending, then a second one descending and at scattered k (values must not depend on the order of the calls); two-call histories (the same factory called first with a parameter 0.04 / 0.004 "
         "away, in both orders); every k of the "
         "support up to 200 (quick) / 400 (thorough); values compared with closed forms evaluated independently (exact "
         "factorials, zeta / polylog by direct summation with Euler-Maclaurin tail) within the documented truncation "
@@ -30,7 +30,7 @@ def zeta(s, N=2000):
     return tot
 
 
-def polylog(s, z, N=200000):
+def polylog(s, z, N=3000000):
     tot = 0.0
     zk = z
     for k in range(1, N):
@@ -45,7 +45,7 @@ def polylog(s, z, N=200000):
 A_GRID = (0.001, 0.01, 0.1, 0.5, 1, 2, 5.5, 37)
 MEAN_GRID = (0.01, 0.5, 1, 2.5, 7, 30, 120, 171.5, 300, 450.25, 720, 800)
 ALPHA_GRID = (2, 2.2, 2.5, 2.9, 3, 3.7, 4, 5, 8.5)
-KAPPA_GRID = (0.05, 0.3, 1, 2.5, 5, 25, 60, 150, 1000)
+KAPPA_GRID = (0.05, 0.3, 1, 2.5, 5, 25, 60, 150, 1000, 10000, 30000.5)
 NEAR = (0.04, 0.004)   # a factory is also called right after / right before the same factory with a nearby parameter
 
 
@@ -121,6 +121,8 @@ def run_instance(inst, tier):
         while z ** kstar / kstar ** al >= 1e-6:
             kstar += 1
         dropped = (z ** kstar / kstar ** al) * z / (1 - z)
+        # the dropped terms are also below k^-alpha, so their sum is at most the integral from kstar - 1/2 (convexity)
+        dropped = min(dropped, (kstar - 0.5) ** (1 - al) / (al - 1))
         rel = 2 * dropped / C + 1e-9
         k0, exact = 1, (lambda k: k ** -al * math.exp(-k / ka) / C)
         tail = lambda K_: (C - sum(k ** -al * z ** k for k in range(1, K_ + 1))) / C
